@@ -197,6 +197,22 @@ impl KeyKind for KStrRef {
         Box::leak(string_of_id(id).into_boxed_str())
     }
 }
+/// slice keys (`&[u32]`, hashed through the crate's `to_sig_slice!` impls): the distinguishing
+/// elements come LAST (the first two are the same for every key), lengths 3..=6
+pub struct KSliceU32;
+impl KeyKind for KSliceU32 {
+    type T = &'static [u32];
+    type K = &'static [u32];
+    fn from_id(id: u64) -> &'static [u32] {
+        let mut v: Vec<u32> = vec![7, 0xFFFF_FFFF];
+        for _ in 0..(id % 3) {
+            v.push(0);
+        }
+        v.push(id as u32);
+        v.push((id >> 32) as u32 ^ (id % 3) as u32);
+        Box::leak(v.into_boxed_slice())
+    }
+}
 impl KeyKind for KStr {
     type T = str;
     type K = String;
@@ -1267,6 +1283,8 @@ combos! {
     (func, "func", vec, "string", KString, "32", u32, "box", BX<u32>, 1, S1, "noshards", FuseLge3NoShards),
     (func, "func", vec, "strref", KStrRef, "size", usize, "bfv", BF<usize>, 2, S2, "shards", FuseLge3Shards),
     (func, "func", vec, "strref", KStrRef, "8", u8, "box", BX<u8>, 2, S2, "noshards", FuseLge3NoShards),
+    (func, "func", vec, "sliceu32", KSliceU32, "64", u64, "box", BX<u64>, 2, S2, "shards", FuseLge3Shards),
+    (func, "func", vec, "sliceu32", KSliceU32, "size", usize, "bfv", BF<usize>, 1, S1, "noshards", FuseLge3NoShards),
     (func, "func", vec, "str", KStr, "size", usize, "bfv", BF<usize>, 2, S2, "shards", FuseLge3Shards),
     (func, "func", vec, "str", KStr, "64", u64, "box", BX<u64>, 1, S1, "noshards", FuseLge3NoShards),
     // library lenders
@@ -1300,6 +1318,7 @@ combos! {
     (fbfv, "filter", vec, "usize", KUsize, "64", u64, "bfv", BF<u64>, 2, S2, "fullsigs", FuseLge3FullSigs),
     (fbfv, "filter", vec, "string", KString, "size", usize, "bfv", BF<usize>, 2, S2, "shards", FuseLge3Shards),
     (fbfv, "filter", vec, "u8", KU8, "16", u16, "bfv", BF<u16>, 1, S1, "noshards", FuseLge3NoShards),
+    (fbfv, "filter", vec, "sliceu32", KSliceU32, "16", u16, "bfv", BF<u16>, 2, S2, "shards", FuseLge3Shards),
 }
 
 /// `Mwhc3Shards` (feature `mwhc`): not part of `COMBOS` (the random part must not draw the sizes of
@@ -2370,7 +2389,7 @@ fn wbits_of(w: &str) -> usize {
 fn max_n_for(kt: &str) -> usize {
     match kt {
         "u8" => 256,
-        "strref" => 2000,
+        "strref" | "sliceu32" => 2000,
         _ => usize::MAX,
     }
 }
@@ -3056,7 +3075,7 @@ pub fn run(ctx: &mut Ctx) {
     for n in mids {
         let c = loop {
             let c = *ctx.rng.pick(&func_like);
-            if n <= max_n_for(c.2) && c.2 != "strref" {
+            if n <= max_n_for(c.2) && c.2 != "strref" && c.2 != "sliceu32" {
                 break c;
             }
         };
